@@ -84,3 +84,34 @@ package rulelist
 //@   requires RL(f) && f.filter.engine != nil && 0 <= rrType
 //@   modifies cgetCache, cgetKey, hst, ipBytes, achas, acval
 //@   ensures the-installed-engines-verdict: res == locked(verdict(f.filter.engine, host, rrType, isAns))
+
+// ---------------------------------------------------------------------------
+// C02: from the matched rules to a verdict.  The deciding network rule - an
+// allow rule outranks every block rule (urlfilter) - gives the verdict; hosts
+// style rules decide only when no network rule does.
+
+//@ import rules github.com/AdguardTeam/urlfilter/rules
+//@ interface IDMapper method Map
+//@   modifies nothing
+
+//@ func ruleDataToResult
+//@   property C02
+//@   requires ref(m) != 0
+//@   modifies nothing
+//@   ensures allow-rule-allows-block-rule-blocks: isAllowlist ? isptr(r, internal.ResultAllowed) : isptr(r, internal.ResultBlocked)
+//@   ensures ref(r) != 0 && fresh(ref(r))
+
+//@ func (*URLFilterResult).hostsRulesToResult
+//@   property C02
+//@   requires r != nil && ref(m) != 0 && (forall i int :: 0 <= i && i < len(r.hostRules4) ==> r.hostRules4[i] != nil) && (forall i int :: 0 <= i && i < len(r.hostRules6) ==> r.hostRules6[i] != nil)
+//@   modifies nothing
+//@   ensures no-hosts-rule-no-verdict: len(r.hostRules4) == 0 && len(r.hostRules6) == 0 ==> res == nil
+//@   ensures hosts-rules-only-block: len(r.hostRules4) + len(r.hostRules6) > 0 ==> isptr(res, internal.ResultBlocked)
+
+//@ func (*URLFilterResult).ToInternal
+//@   property C02
+//@   requires r != nil && ref(m) != 0 && (forall i int :: 0 <= i && i < len(r.hostRules4) ==> r.hostRules4[i] != nil) && (forall i int :: 0 <= i && i < len(r.hostRules6) ==> r.hostRules6[i] != nil)
+//@   modifies lastBasic, lastBasicArr, lastBasicLen
+//@   ensures the-network-rules-are-asked-first: lastBasicArr == arr(r.networkRules) && lastBasicLen == len(r.networkRules)
+//@   ensures a-network-rule-decides: lastBasic != nil ==> (lastBasic.Whitelist ? isptr(res, internal.ResultAllowed) : isptr(res, internal.ResultBlocked))
+//@   ensures hosts-rules-only-as-a-fallback: lastBasic == nil ==> (len(r.hostRules4) + len(r.hostRules6) > 0 ? isptr(res, internal.ResultBlocked) : res == nil)
